@@ -527,6 +527,7 @@ PROPS = {
 
 # ---- additions of the second session (strengthened after seeded changes were missed; see DESIGN.md 8.4)
 _MORE = {
+    "C02": " Search criteria include sparse NOT/OR operands (1-3 keys: a single flag, a flag and a size, a date...) and keywords spelled like system flags without the backslash.",
     "C08": " Concurrent part (TestPropConcurrentSelect): a session SELECTs INBOX at the moment 1-3 other sessions MOVE / EXPUNGE all its messages or append to it (all commands of a round start together); after NOOP every session's reconstructed list must equal the freshly selected mailbox.",
     "C01": " Flags and mailbox attributes are also drawn from ARBITRARY strings (TestPropAnyFlag: every byte value between letters, UTF-8 words, well-known "
            "names with a letter replaced by a non-ASCII character that Unicode folding maps onto it, bare and in lists): 7-bit valid ones must be accepted, "
@@ -556,7 +557,7 @@ _MORE = {
     "C11": " Nesting probes are repeated after 9000 responses containing empty lists on the same connection (the cap must not depend on history).",
     "C12": " Rounds have up to 5 commands, several LIST/SEARCH commands per round (answered in sending order, their data carries no correlator), LIST ... RETURN "
            "(STATUS) with STATUS responses dropped for some mailboxes and \\Noselect mailboxes, STATUS on 'inbox' in three spellings answered in either spelling; "
-           "a final LOGOUT round with 0-2 commands pipelined behind it which are never answered (they must fail, State() must be logout). Commands refused (NO/BAD) before login leave State() not authenticated; the STATUS data of a pipelined STATUS command may arrive before the completion of a plain LIST that lists the same mailbox.",
+           "a final LOGOUT round with 0-2 commands pipelined behind it which are never answered (they must fail, State() must be logout). Commands refused (NO/BAD) before login leave State() not authenticated; the STATUS data of a pipelined STATUS command may arrive before the completion of a plain LIST that lists the same mailbox. STORE is .SILENT every other time and still owns the FETCH data sent for it; EXPUNGE commands with 120-300 notifications collected after the round has been answered; PERMANENTFLAGS () updates are mirrored.",
     "C13": " Workloads also contain 300-message FETCH streams whose consumer lags and calls State()/Mailbox() between messages, a 128 KiB body literal streamed in "
            "1500-byte reads while the server sends it in pieces, LOGOUT answered without closing for 0-6 further responses, commands with two synchronising "
            "literals of which the k-th is refused, NOOPs answered with unilateral EXPUNGE/EXISTS/FLAGS while other goroutines read every field of Mailbox(); "
